@@ -390,7 +390,6 @@ impl UpdateHandle {
         let mut updated_pages = Vec::new();
 
         let mut path_proof_offset = 0;
-        let mut witnessed_start = 0;
 
         for _ in 0..self.num_workers {
             let output = join_task(&self.worker_rx)?;
@@ -410,6 +409,10 @@ impl UpdateHandle {
                 // `maybe_witness` and `maybe_witnessed_ops` must be initialized to contain
                 // all witnesses from all workers.
                 let witness = maybe_witness.as_mut().unwrap();
+
+                // Workers complete in arbitrary order: the operations covered by this worker's
+                // paths start where the worker started, not where the previous output ended.
+                let mut witnessed_start = output.witnessed_start.unwrap_or(0);
 
                 let path_proof_count = witnessed_paths.len();
                 witness.path_proofs.reserve(witnessed_paths.len());
@@ -494,6 +497,9 @@ enum RootPagePending {
 struct WorkerOutput {
     root: Option<Node>,
     witnessed_paths: Option<Vec<(WitnessedPath, Option<trie::LeafData>, usize)>>,
+    // The index into `read_write` of the first key covered by `witnessed_paths`. The batches
+    // witnessed by one worker are contiguous and in order, but workers finish in any order.
+    witnessed_start: Option<usize>,
     updated_pages: Vec<UpdatedPage>,
 }
 
@@ -502,6 +508,7 @@ impl WorkerOutput {
         WorkerOutput {
             root: None,
             witnessed_paths: if witness { Some(Vec::new()) } else { None },
+            witnessed_start: None,
             updated_pages: Vec::new(),
         }
     }
